@@ -24,6 +24,28 @@ pub fn run(c: &Case, out: &mut Out) {
         "lcop" => {
             let mut lc = LinearCombination::<Fr>::empty("lc");
             for t in parse_terms(c.get("lc0")) { lc.push(t); }
+            let mut ev: BTreeMap<String, Fr> = BTreeMap::new();
+            for ch in c.get("ev").chunks(2) { ev.insert(plabel(ch[0].parse().unwrap()), f_from_str(&ch[1])); }
+            let val = |terms: &[(Fr, LCTerm)]| -> Fr {
+                let mut v = Fr::zero();
+                for (co, t) in terms { v += *co * match t { LCTerm::One => Fr::one(), LCTerm::PolyLabel(l) => *ev.get(l).unwrap_or(&Fr::zero()) }; }
+                v
+            };
+            // the same operator sequence applied to values (the statement of the property)
+            let mut vops = val(&lc.terms);
+            for (_i, op) in c.indexed("op") {
+                match op[0].as_str() {
+                    "addscaled" => vops += f_from_str::<Fr>(&op[1]) * val(&parse_terms(&op[2..])),
+                    "subscaled" => vops -= f_from_str::<Fr>(&op[1]) * val(&parse_terms(&op[2..])),
+                    "add" => vops += val(&parse_terms(&op[1..])),
+                    "sub" => vops -= val(&parse_terms(&op[1..])),
+                    "addc" => vops += f_from_str::<Fr>(&op[1]),
+                    "subc" => vops -= f_from_str::<Fr>(&op[1]),
+                    "mul" => vops *= f_from_str::<Fr>(&op[1]),
+                    k => panic!("unknown lc op {}", k),
+                }
+            }
+            out.obs1("value_by_ops", "F", f_to_str(&vops));
             for (_i, op) in c.indexed("op") {
                 match op[0].as_str() {
                     "addscaled" => { let o = LinearCombination { label: "o".into(), terms: parse_terms(&op[2..]) }; lc += (f_from_str::<Fr>(&op[1]), &o); }
@@ -36,8 +58,6 @@ pub fn run(c: &Case, out: &mut Out) {
                     k => panic!("unknown lc op {}", k),
                 }
             }
-            let mut ev: BTreeMap<String, Fr> = BTreeMap::new();
-            for ch in c.get("ev").chunks(2) { ev.insert(plabel(ch[0].parse().unwrap()), f_from_str(&ch[1])); }
             let coeffs: Vec<Fr> = lc.terms.iter().map(|(c, _)| *c).collect();
             let labs: Vec<String> = lc.terms.iter().map(|(_, t)| match t { LCTerm::One => "one".to_string(), LCTerm::PolyLabel(l) => l[1..].trim_start_matches('0').to_string() }).map(|s| if s.is_empty() { "0".into() } else { s }).collect();
             let mut v = Fr::zero();
